@@ -388,6 +388,9 @@ def check_reorder(rep, prog, m):
 
 
 def run(rep, prog, tier):
+    # remove_pop / filter_pops integrate a population out with Numerics.trapz: the primitive itself (all its return paths)
+    from rules import c04
+    c04.check_trapz(rep, prog)
     m = prog.mod(PM)
     rep.saw_file(m.rel)
     for q, fn in m.funcs.items():
